@@ -171,17 +171,51 @@ def run_harness(ctx, emb, reqs, env, timeout=40, max_hangs=3):
     return out
 
 
-def run_outer(ctx, d, exprs, timeout=60, chunk=1000, max_hangs=3):
-    """scm.run_cases in slices, giving up on the stream after a few hangs (each costs `timeout`)"""
-    res, hangs = [], 0
+def run_outer(ctx, d, exprs, timeout=30, chunk=1000, max_hangs=3):
+    """like scm.run_cases (same prelude and result format) but gives up on the stream after
+    `max_hangs` cases that hang or kill the process: 'TIMEOUT' / 'CRASH ..' for those, 'SKIPPED' after."""
+    import tempfile
+    res = ["SKIPPED"] * len(exprs)
+    state = dict(hangs=0)
+
+    def run_range(lo, hi):
+        while lo < hi and state["hangs"] < max_hangs:
+            body = [scm.PRELUDE] + ["(verif-case %d %s)" % (i, exprs[i]) for i in range(lo, hi)] + ['(write-string "DONE")(newline)']
+            with tempfile.NamedTemporaryFile("w", suffix=".scm", dir=B.SCRATCH, delete=False) as fh:
+                fh.write("\n".join(body))
+                path = fh.name
+            try:
+                try:
+                    r = B.run_chibi(d, [path], timeout=timeout)
+                    out, rc, err = r.stdout, r.returncode, r.stderr
+                except subprocess.TimeoutExpired as e:
+                    out = e.stdout.decode() if isinstance(e.stdout, bytes) else (e.stdout or "")
+                    rc, err = "TIMEOUT", ""
+            finally:
+                os.unlink(path)
+            done, last = False, lo - 1
+            for line in out.split("\n"):
+                if line == "DONE":
+                    done = True
+                    continue
+                sp = line.find(" ")
+                if sp > 0 and line[:sp].isdigit() and lo <= int(line[:sp]) < hi:
+                    res[int(line[:sp])] = line[sp + 1:]
+                    last = max(last, int(line[:sp]))
+                elif line and last >= lo and not done:
+                    res[last] += "\n" + line
+            if done:
+                return
+            bad = last + 1
+            if bad < hi:
+                res[bad] = "TIMEOUT" if rc == "TIMEOUT" else "CRASH rc=%s %s" % (rc, (err or "")[-300:].replace("\n", " | "))
+                state["hangs"] += 1
+            lo = bad + 1
+
     for lo in range(0, len(exprs), chunk):
-        part = scm.run_cases(d, exprs[lo:lo + chunk], timeout=timeout, chunk=chunk)
-        res.extend(part)
-        hangs += sum(1 for x in part if x == "TIMEOUT")
-        if hangs >= max_hangs:
-            ctx.note("outer stream cut after %d hangs" % hangs)
-            res.extend(["SKIPPED"] * (len(exprs) - len(res)))
-            break
+        run_range(lo, min(len(exprs), lo + chunk))
+    if state["hangs"] >= max_hangs:
+        ctx.note("outer stream cut after %d hangs/crashes" % state["hangs"])
     return res
 
 
